@@ -34,6 +34,7 @@ class Bounds:
     distinct_sets: bool = False  # no duplicate items at set-typed positions (C06 / C18 domain)
     td_extra: bool = False  # TypedDict values may carry an undeclared key (C04)
     alias_confusion: bool = False  # a field may come under a name other than its external one (C11)
+    bad_arity: bool = False  # Val: at most one fixed-size tuple has one item too few / too many (C08, check_type)
 
     def as_dict(self):
         return dict(self.__dict__)
@@ -457,6 +458,7 @@ class Val:
         self.defs = named(prog.spec)
         self.respect = respect_constraints
         self.hashed = 0
+        self.ill_typed = False
 
     def val(self, s: Sp, depth: int = None, cs: tuple = ()):
         from apischema import Undefined
@@ -532,6 +534,9 @@ class Val:
         if k == "tuple":
             items = tuple(self.val(a, depth - 1) for a in s.a)
             self.constrain(cs, items, "arr")
+            if self.b.bad_arity and not self.ill_typed and s.a and c.flag("bad-arity"):
+                self.ill_typed = True
+                items = items[:-1] if c.flag("shorter") else items + items[-1:]
             return items
         if k == "map":
             out = {}
